@@ -15,7 +15,7 @@ claim("C18", "Lean 4 theorems by finite case analysis (decide +kernel over all 2
       "Proved for the model: FunctionCode.new/value round trip for all 256 bytes, named standard codes, exactly the nine exception codes accepted and mapping back, "
       "exactly 0xFF00/0x0000 accepted as coil values, and the function code of any request/response the encoder accepts equals the first encoded byte "
       "(Props/C18.lean). The model's tables are tied to the crate exhaustively: every byte, every 16-bit coil value, every kind.",
-      "For these finite functions the model/code tie is complete (exhaustive: true in the evidence).")
+      "For these finite functions the model/code tie is complete (exhaustive: true in the evidence). Open finding D19: the nine serial-line-only kinds have a function code but no encoding (pdu_len/encode are todo!()/unimplemented!()); req/rsp_fc_first_byte cover every value whose encode succeeds.")
 
 claim("C20", "translator-generated cfg model + Lean 4 theorem by decide +kernel over all feature subsets + exhaustive cargo correspondence",
       "Partial by nature. The cfg model (Gen/Cfg.lean) is REGENERATED from /repo's source on every run by tools/cfg_translate.py; the theorem cfg_consistent says that for every "
@@ -110,7 +110,8 @@ claim("C04", "Lean 4 theorems composing the ADU encoder equation, the reception 
       "Proved for the model, for every slave id: the encoded frame is slave id, PDU, be16(crc16) of those bytes, length PDU+3 (rtu_req_layout, rtu_rsp_layout); handing that frame (also followed by further bytes) to the opposite decoder returns the same "
       "slave id and the PDU decoder's value; exception responses (functions 1..0x2B, nine codes) come back as exceptions (rtu_exception_roundtrip); requests as ..._partial excluding 0x0F/0x10 (open finding D4) and responses excluding "
       "WriteSingleCoil (open finding D12), each with defect witnesses and refutations of the full statement (Props/C04.lean); hypothesis-free end-to-end forms for every built value in C04Full.lean, the inverse direction (decode then re-encode) in C04Dec.lean.",
-      "For the variable-payload kinds the PDU-level round trip enters as a hypothesis that C01/C02 discharge (C01.req_roundtrip, C02.rsp_roundtrip); fixed-layout kinds and exceptions are hypothesis-free. That crc16 is CRC-16/MODBUS with the low byte first is C06.")
+      "For the variable-payload kinds the PDU-level round trip enters as a hypothesis that C01/C02 discharge (C01.req_roundtrip, C02.rsp_roundtrip); fixed-layout kinds and exceptions are hypothesis-free. That crc16 is CRC-16/MODBUS with the low byte first is C06. "
+      "Open finding D19: the one-byte requests 07/0B/0C/11 are framed by rtu::request_pdu_len but cannot be encoded (todo!()); C04Wf.lean extends the round trip from constructor-built values to every well-formed value.")
 
 claim("C05", "Lean 4 theorems composing the ADU encoder equation, the reception theorems (C10) and the PDU decoders + differential correspondence over transaction/unit ids + round-trip oracle",
       "Proved for the model, for every transaction id and unit id: the encoded ADU is tid (big-endian), protocol id 0, length = PDU+1, unit id, PDU, total PDU+7 (tcp_req_layout, tcp_rsp_layout, tcp_frame_fields); decoding it "
@@ -133,4 +134,4 @@ claim("C19", "Lean 4 theorems (the encoder's outcome is a function of `fits`) + 
       "(req_no_truncation, req_encode_outcome, rsp_no_truncation, rsp_error_or_exact, count_fields_*; Props/C19Req.lean, C19Rsp.lean).",
       "Values assembled from DECODED containers are covered too (Props/C19X.lean: the Data of any decoded register response has exactly 2*quantity bytes and, placed in a write request, encodes to the specification's bytes of its words - "
       "this failed before fix 016c806; Props/C19Wf.lean: the same for EVERY well-formed value - closure of well-formedness under the four public sources of a container, "
-      "req_wf_no_truncation / rsp_wf_no_truncation / req_wf_conforms / rsp_wf_conforms, with the open-finding D5b region as the exact exception). The MBAP length field of the TCP ADU encoders is C05/C12 (fix eae7d15: an over-long custom PDU is refused; tcp_length_field_never_wraps).")
+      "req_wf_no_truncation / rsp_wf_no_truncation / req_wf_conforms / rsp_wf_conforms, with the open-finding D5b region as the exact exception; the nine serial-line-only kinds whose pdu_len/encode are todo!()/unimplemented!() are open finding D19: excluded by the named predicate Implemented, with not_implemented_panics as the defect theorem). The MBAP length field of the TCP ADU encoders is C05/C12 (fix eae7d15: an over-long custom PDU is refused; tcp_length_field_never_wraps).")
